@@ -1,12 +1,18 @@
 #!/bin/sh
-# tools/mut_test.sh <seed-id> <check-id> [tier]: run ./check against a scratch copy of /repo/src with seeded/<seed-id>/patch.diff applied
+# tools/mut_test.sh <seed-id> <check-id> [tier]: run ./check against a scratch copy of /repo/src with
+# seeded/<seed-id>/patch.diff applied (VERIF_REPO).  Regenerated models are written into coq/Cxx/Gen.v: the
+# Gen.v files in the closure of the check under test (only those: other checks may be running) are saved
+# first and put back afterwards, with a fresh timestamp so that make rebuilds the .vo.
 set -e
 S=$1; C=$2; T=${3:-quick}
 D=$(mktemp -d /var/tmp/mut-$S-XXXX)
-# regenerated models are written into coq/Cxx/Gen.v: keep the real ones and put them back afterwards
 G=$(mktemp -d /var/tmp/mut-gen-XXXX)
-(cd /verif/coq && for f in */Gen.v; do mkdir -p "$G/$(dirname $f)"; cp -p "$f" "$G/$f"; done)
-trap 'rm -rf "$D"; (cd /verif/coq && for f in */Gen.v; do cmp -s "$G/$f" "$f" || { cp "$G/$f" "$f"; touch "$f"; }; done); rm -rf "$G"' EXIT
+GENS=$(cd /verif && /venv/bin/python -c "
+import sys; sys.path.insert(0, 'tools')
+from lib import vlib
+print(' '.join(f for f in vlib.coq_closure('$C/Props.v') if f.endswith('/Gen.v')))")
+(cd /verif/coq && for f in $GENS; do mkdir -p "$G/$(dirname $f)"; cp -p "$f" "$G/$f"; done)
+trap 'rm -rf "$D"; (cd /verif/coq && for f in $GENS; do cmp -s "$G/$f" "$f" || { cp "$G/$f" "$f"; touch "$f"; }; done); rm -rf "$G"' EXIT
 mkdir -p "$D" && cp -r /repo/src "$D/src" && rm -f "$D"/src/*.so
 (cd "$D" && patch -s -p1 < /verif/seeded/$S/patch.diff)
 cd /verif && VERIF_REPO="$D" ./check "$C" --tier "$T" 2>&1 | grep -E "^(OK|VIOLATION|CHECK-ERROR|BUILD-ERROR|  )" | head -12
